@@ -744,6 +744,34 @@ func encSweep(r *Rand, console bool, emit func(op any)) {
 			mk(c, func(g *encGen, op *encOp) { op.Ent.Level = l })
 		}
 	}
+	// deep namespace chains (around 2^8 and beyond): as With-context, as call-site fields, and opened inside an object
+	// marshaler (which closes them itself), each followed by a plain field
+	for _, depth := range []int{3, 255, 256, 257, 300, 513} {
+		for where := 0; where < 3; where++ {
+			depth, where := depth, where
+			mk(plainCfg(), func(g *encGen, op *encOp) {
+				last := encField{F: "prim", Key: hx([]byte("z")), P: g.prim(), Calls: []encCall{}}
+				switch where {
+				case 0:
+					for i := 0; i < depth; i++ {
+						op.Ctx = append(op.Ctx, []encField{{F: "ns", Key: hx([]byte("n" + strconv.Itoa(i%7))), Calls: []encCall{}}})
+					}
+					op.Fields = append(op.Fields, last)
+				case 1:
+					for i := 0; i < depth; i++ {
+						op.Fields = append(op.Fields, encField{F: "ns", Key: hx([]byte("n" + strconv.Itoa(i%7))), Calls: []encCall{}})
+					}
+					op.Fields = append(op.Fields, last)
+				default:
+					o := encField{F: "obj", Key: hx([]byte("o")), Calls: []encCall{}}
+					for i := 0; i < depth; i++ {
+						o.Calls = append(o.Calls, encCall{M: "ns", Key: hx([]byte("n" + strconv.Itoa(i%7))), Calls: []encCall{}})
+					}
+					op.Fields = append(op.Fields, o, last)
+				}
+			})
+		}
+	}
 	// durations: all boundaries in one op per encoder, once as fields and once as elements of an array
 	for _, de := range []string{"nanos", "millis", "string", "secs", "noop", "nil"} {
 		c := plainCfg()
